@@ -42,6 +42,8 @@ def item_of(an, n, iter_ty):
         n = n[1]
     if n[0] == "payload" and n[2] == "Some" and n[1][0] == "call" and n[1][1].startswith("<%s as" % iter_ty) and n[1][1].endswith("::next"):
         return n[1][2][0], k
+    if n[0] == "payload" and n[2] == "Some" and n[1][0] == "call" and n[1][1] == "iter::find":
+        return n[1][2][0], k       # the first item of the iterator that satisfies the search predicate (checked by the caller)
     return None, None
 
 
@@ -119,6 +121,15 @@ def check_query(F, rep, q, kind):
                 if not okn:
                     msgs.append("names is %s, expected SymbolNamesIterator{vda_iter: that item's aux iterator, strtab: the verdef string table}" % show(names)[:200])
                 g = _guard_eq(an, st, F_(item, "vd_ndx"), idx)
+                if g is not True and item[0] == "fld" and item[1][0] == "payload" and item[1][1][0] == "call" and item[1][1][1] == "iter::find":
+                    # `iter.find(|(vd, _)| vd.vd_ndx == wanted)`: the guard is the search predicate
+                    from .c20 import search_predicate
+                    for x in val.subterms():
+                        if x.op == "call" and x.args[0] == "iter::find" and len(x.args[2]) == 2:
+                            pred = search_predicate(F, an, x.args[2][1])
+                            want_p = ("Eq",) + tuple(sorted((F_(F_(("ITEM",), 0), "vd_ndx"), idx), key=repr))
+                            if pred == want_p and "verdefs" in show(norm(x.args[2][0])):
+                                g = True
                 if g is not True:
                     msgs.append("the record is returned without vd_ndx == (versym & 0x7fff) being established (guard=%s)" % g)
         if f.get("hidden") != hidden:
